@@ -424,6 +424,7 @@ class Link:
         self.tasks = []
         self.cut = None               # None | "rst" | "fin" | "dark"
         self.bytes = [0, 0]           # forwarded up / down
+        self.delay = 0.0              # TCP: seconds the box sleeps after every forwarded chunk (slow link)
         self.peer = None              # UDP: the client's source address
 
 
@@ -517,6 +518,8 @@ class Middlebox:
                     continue        # read and discard
                 await self.loop.sock_sendall(dst, data)
                 ln.bytes[d] += len(data)
+                if ln.delay:
+                    await asyncio.sleep(ln.delay)   # a slow link: what is behind it backs up into the sender's socket
         except (ConnectionError, OSError):
             # one side was reset: reset the other side too (a box that forwards failures)
             if not ln.cut:
@@ -552,6 +555,17 @@ class Middlebox:
                     sk.close()
                 except OSError:
                     pass
+
+    def slow(self, ln, delay):
+        """From now on this link is slow: small socket buffers in the box, a pause after every forwarded chunk."""
+        ln.delay = delay
+        for sk in (ln.c, ln.s):
+            if sk is not None:
+                for opt in (socket.SO_RCVBUF, socket.SO_SNDBUF):
+                    try:
+                        sk.setsockopt(socket.SOL_SOCKET, opt, 1 << 16)
+                    except OSError:
+                        pass
 
     def cut(self, ln, how):
         if ln.cut:
@@ -907,6 +921,7 @@ class TcpFlow:
             ("wait_dial",)
             ("throttle", side, seconds)             from now on the reader of `side` sleeps that long after every recv (slow reader:
                                                     the chain behind it fills up, the relay works under back-pressure)
+            ("link_slow", seconds)                  the middlebox (when there is one, TCP links) forwards this flow's link slowly from now on
             ("hold",)                               keep both sockets as they are and stay silent until the batch releases the flow
     reach: "ok" | "refused" (nothing listens at the requested port) | "unresolvable" (a name that does not resolve)
     """
@@ -1152,6 +1167,9 @@ class TcpFlow:
                     await self._wait_dial(dial_cap)
                 elif op == "throttle":
                     self.throttle[st[1]] = st[2]
+                elif op == "link_slow":
+                    if self.link is not None and not self.mbox.udp:
+                        self.mbox.slow(self.link, st[1])
                 elif op == "hold":
                     if self.hold is not None:
                         self.hold[0].set()
